@@ -332,6 +332,20 @@ func runC12(w *fw.Worker) {
 				return
 			}
 		}
+		if probe == nil && r.Chance(25) {
+			// the program parses the FlagSet itself (as cobra or a main() with other flags would) before dials asks for
+			// the values: nothing may be parsed, or accumulated, a second time
+			var perr error
+			switch ps := src.(type) {
+			case *pflagsrc.Set:
+				perr = ps.Flags.Parse(argv)
+			case *stdflagsrc.Set:
+				perr = ps.Flags.Parse(argv)
+			}
+			if perr == nil {
+				w.Count("flagsets_parsed_by_their_owner_first", 1)
+			}
+		}
 		got, verr := src.Value(context.Background(), dials.NewType(ptrType))
 		if probe != nil {
 			if verr == nil {
